@@ -6,7 +6,7 @@ Executable model of what `transformer(value, T)` does for every kind of declared
 
   TypeTransformer.__call__ / apply           transform.py:711-734     leaf: `Utv.Conv.transformU` (C12's converter model,
                                                                       branch for branch — NOT abstract here)
-  transform_rule → Rule.parse                rule.py:1689-1760        `ruleParse`
+  transform_rule → Rule.parse                rule.py:1699-1772        `ruleParse` (+ the `@utype.apply` shortcut :1713-1718, `Ty.applied`)
   Rule._parse_seq_args / _parse_tuple_args / _parse_map_args
                                              rule.py:1911-2062        `seqLoop` / `tupleArgs` / `mapLoop` (+ re-wrap `origin(value)`)
   validator loop over `cls.__validators__`   rule.py:1736-1755        `validatePhase` = `Utv.Rule.validate` over the GENERATED
@@ -93,6 +93,7 @@ inductive Ty where
   | all (ts : List Ty)                                         -- `&`
   | neg (ts : List Ty)                                         -- `~`
   | data (k : Nat)                                             -- data class number k of the environment
+  | applied (t : Target) (inner : Ty)                          -- `@utype.apply(...)` on class `t`: `inner` is the Rule it built
 
 instance : Inhabited Ty := ⟨.any⟩
 
@@ -493,6 +494,10 @@ def parse (P : Prims) (PP : Utv.Py.Prims) (D : DEnv) : Nat → Opts → Ty → V
     | .all ts => allLoop (parse P PP D n o) ts v
     | .neg ts => negLoop (parse P PP D n o) ts v
     | .data k => dataParse P D (parse P PP D n) o k v
+    | .applied t inner =>
+      -- `if cls.__applied__ and isinstance(value, cls.__origin__): return cls.post_validate(value)` (rule.py:1713-1718):
+      -- a value that already is an instance of the decorated class is final — no conversion, no constraint
+      if isInstT v t then .ok v else parse P PP D n o inner v
 
 /-! ## public entry points -/
 
